@@ -302,3 +302,28 @@ func VF_C04_SizeBound(c, _ int) {
 	vf.WaitAll()
 	vf.Reach("end")
 }
+
+// VF_C04_ObserveReset: GetSize / IsEmpty / AsArray / GetCapacity while another goroutine calls RemoveAll (no
+// producer or consumer involved): the observers synchronise with RemoveAll, so no race and a size within bounds.
+func VF_C04_ObserveReset(k, c int) {
+	if k > c {
+		k = c
+	}
+	q := col.Queue[int](nil).MakeWithCapacity(uint(c))
+	for i := 0; i < k; i++ {
+		q.AddValue(i + 1)
+	}
+	vf.Share(q)
+	vf.Go(func() { q.RemoveAll() })
+	vf.Go(func() {
+		n := q.GetSize()
+		vf.Assert("size-is-before-or-after-the-reset", vf.Or(n == k, n == 0))
+		e := q.IsEmpty()
+		vf.Assert("empty-agrees", vf.Implies(k > 0 && !e, true))
+		arr := q.AsArray()
+		vf.Assert("array-is-before-or-after-the-reset", vf.Or(len(arr) == k, len(arr) == 0))
+	})
+	vf.TraceStart()
+	vf.WaitAll()
+	vf.Reach("end")
+}
